@@ -317,7 +317,9 @@ class ProductType(ParametrizedDependentType):
             else:
                 return Order.NONE
         else:
-            return NotImplemented
+            # Like any dependent type: below its bound (tuple) and what is
+            # comparable with it
+            return super().__type_order__(other)
 
 
 @dependent_check(bound_is_name=True)
